@@ -114,7 +114,11 @@ def apply_model(space, m, op):
     kind = space.kind
     o = op[0]
     items, charts = m["items"], m["charts"]
-    if o == "set":
+    if o == "ser":
+        # serializing is an observation, but it is part of the history: an implementation that
+        # remembers anything across serializations must still show later edits
+        m["serialized_before"] = True
+    elif o == "set":
         m_set(items, op[1], value_of(op[2]))
     elif o == "del":
         return m_del(items, op[1])
@@ -183,6 +187,14 @@ def apply_model(space, m, op):
 
 def apply_real(space, obj, op):
     o = op[0]
+    if o == "ser":
+        try:
+            str(obj)
+        except core.WatchdogTimeout:
+            raise
+        except Exception:
+            pass  # judged by the round-trip oracle when the state is inside the domain
+        return
     if o == "set":
         obj[op[1]] = value_of(op[2])
     elif o == "del":
@@ -252,8 +264,8 @@ def identity_partition(obj):
     return out
 
 
-def state_key(obj, obs):
-    return json.dumps([core.jsonable(obs), identity_partition(obj)], ensure_ascii=True)
+def state_key(obj, obs, serialized_before=False):
+    return json.dumps([core.jsonable(obs), identity_partition(obj), bool(serialized_before)], ensure_ascii=True)
 
 
 # ---------------------------------------------------------------------------
@@ -398,15 +410,41 @@ def model_from_object(obj):
     return {"type": "ssc", "items": [tuple(i) for i in o["items"]], "charts": [{"items": [tuple(i) for i in c["items"]]} for c in o["charts"]]}
 
 
-def bfs(acc, space, layer, init_name, init_model, init_obj, ops, depth, first_op=None, prop="C01"):
+def bfs(acc, space, layer, init_name, init_model, make_obj, ops, depth, first_op=None, prop="C01"):
     """
     Explore all histories of <= depth operations from one initial state (optionally only
     those starting with ops[first_op]); check the model agreement and the round-trip
     oracle in every distinct state reached.
+
+    Live objects are never copied: the object of every state is rebuilt by replaying the
+    state's whole history on a fresh initial object (make_obj()), so whatever the
+    implementation remembers between operations - including between serializations, which
+    are operations of the alphabet ('ser') - is carried along exactly as in real use.
     """
-    def check_state(model, obj, history):
+    SER = ("ser",)
+    all_ops = list(ops) + [SER]
+
+    def rebuild(history):
+        """fresh object + replay; returns (obj, None) or (None, (op, exception))"""
+        obj = make_obj()
+        for op in history:
+            try:
+                apply_real(space, obj, op)
+            except core.WatchdogTimeout:
+                raise
+            except Exception as e:
+                return None, (op, e)
+        return obj, None
+
+    def visit(model, history):
+        """Returns (key, case, obj) for a state to be explored further, or None."""
         case = {"kind": "history", "init": init_name, "ops": [core.jsonable(list(o)) for o in history]}
         core.guard_cheap(acc, case)
+        obj, err = rebuild(history)
+        if err is not None:
+            op, e = err
+            acc.violation("an enabled edit operation raised", case, "applied", f"{type(e).__name__}: {e}", signature=("op", op[0], type(e).__name__))
+            return None
         try:
             obs = X.observe(obj)
         except core.WatchdogTimeout:
@@ -415,45 +453,35 @@ def bfs(acc, space, layer, init_name, init_model, init_obj, ops, depth, first_op
             acc.violation("observing the object raised (no chart list?)", case, "items and charts", f"{type(e).__name__}: {e}", signature=("observe", type(e).__name__))
             return None
         want = X.expected_observation(model)
-        norm = lambda o: dict(o, charts=[dict(c, extra=c["extra"]) if "extra" in c else c for c in o["charts"]])
-        if norm(obs) != norm(want):
+        if obs != want:
             acc.violation("object state differs from the dictionary model after this history", case, want, obs, signature=("model", history[-1][0] if history else "init"))
             return None
-        key = state_key(obj, obs)
-        return key, case
+        return state_key(obj, obs, model.get("serialized_before")), case, obj
 
-    frontier = []
     seen = set()
-    start = [(init_model, init_obj, [])]
-    if first_op is not None:
+    if first_op is None:
+        start = [(copy.deepcopy(init_model), [])]
+    else:
         m2 = copy.deepcopy(init_model)
-        if not apply_model(space, m2, ops[first_op]):
+        op0 = all_ops[first_op]
+        if not apply_model(space, m2, op0):
             return
-        o2 = copy.deepcopy(init_obj)
         acc.count("transitions")
-        try:
-            apply_real(space, o2, ops[first_op])
-        except core.WatchdogTimeout:
-            raise
-        except Exception as e:
-            acc.violation("an enabled edit operation raised", {"kind": "history", "init": init_name, "ops": [core.jsonable(list(ops[first_op]))]}, "applied", f"{type(e).__name__}: {e}", signature=("op", ops[first_op][0], type(e).__name__))
-            return
-        start = [(m2, o2, [ops[first_op]])]
+        start = [(m2, [op0])]
     level = []
-    for model, obj, hist in start:
-        r = check_state(model, obj, hist)
+    for model, hist in start:
+        r = visit(model, hist)
         if r is None:
             continue
-        key, case = r
-        if key in seen:
-            continue
-        seen.add(key)
-        level.append((model, obj, hist, case))
-    d = len(start[0][2])
+        key, case, obj = r
+        if key not in seen:
+            seen.add(key)
+            level.append((model, hist, case, obj, key))
+    d = len(start[0][1])
     while level:
         nxt = []
-        for model, obj, hist, case in level:
-            acc.add_key("states", prop + key_prefix(init_name) + state_key(obj, X.observe(obj)))
+        for model, hist, case, obj, key in level:
+            acc.add_key("states", prop + key)
             acc.count("states_visited")
             fails, status = check_roundtrip(model, obj)
             acc.count("evaluations")
@@ -468,35 +496,31 @@ def bfs(acc, space, layer, init_name, init_model, init_obj, ops, depth, first_op
                     acc.outcome("state with a key-only (None) property")
                 if model["charts"]:
                     acc.outcome("state with charts")
+                if model.get("serialized_before"):
+                    acc.outcome("state reached after an earlier serialization")
             for f in fails:
                 acc.violation(f["clause"], case, f["expected"], f["observed"], signature=(f["clause"], str(f["observed"])[:30] if "raised" in f["clause"] else None))
             if d >= depth:
                 continue
-            for op in ops:
+            for op in all_ops:
+                if op == SER and hist and hist[-1] == SER:
+                    continue  # two serializations in a row: same as one
                 m2 = copy.deepcopy(model)
                 if not apply_model(space, m2, op):
                     continue
                 acc.count("transitions")
-                o2 = copy.deepcopy(obj)
                 h2 = hist + [op]
-                try:
-                    apply_real(space, o2, op)
-                except core.WatchdogTimeout:
-                    raise
-                except Exception as e:
-                    acc.violation("an enabled edit operation raised", {"kind": "history", "init": init_name, "ops": [core.jsonable(list(o)) for o in h2]}, "applied", f"{type(e).__name__}: {e}", signature=("op", op[0], type(e).__name__))
-                    continue
-                r = check_state(m2, o2, h2)
+                r = visit(m2, h2)
                 if r is None:
                     continue
-                key, case2 = r
-                if key in seen:
+                key2, case2, obj2 = r
+                if key2 in seen:
                     continue
-                seen.add(key)
-                nxt.append((m2, o2, h2, case2))
+                seen.add(key2)
+                nxt.append((m2, h2, case2, obj2, key2))
         level = nxt
         d += 1
-    acc.sample(layer, {"init": init_name, "first_op": core.jsonable(list(ops[first_op])) if first_op is not None else None, "distinct_states_in_shard": len(seen)})
+    acc.sample(layer, {"init": init_name, "first_op": core.jsonable(list(all_ops[first_op])) if first_op is not None else None, "distinct_states_in_shard": len(seen)})
 
 
 def key_prefix(init_name):
@@ -504,8 +528,8 @@ def key_prefix(init_name):
 
 
 def replay_history(space, init_model, init_obj, ops_json):
-    """Used by --replay: re-run one history without the explorer."""
-    model, obj = copy.deepcopy(init_model), copy.deepcopy(init_obj)
+    """Used by --replay: re-run one history without the explorer (init_obj must be a fresh object)."""
+    model, obj = copy.deepcopy(init_model), init_obj
     fails = []
     for op in ops_json:
         if not apply_model(space, model, op):
